@@ -55,7 +55,9 @@ OTHERCHAN = '#d'
 # observation of the implementation
 # ------------------------------------------------------------------------------------------
 DEBUG = {}
+SITE_OUT = [None]
 class Obs(object):
+    entered = []       # (plugin, command tuple, msg.prefix, msg.channel) at the entry of Commands._callCommand
     gate = []          # (plugin, command tuple) for which Commands.callCommand was reached
     bodies = []        # (plugin, path) of command bodies that ran
     execute = None     # callable(plugin, command) -> bool: really call the method?
@@ -77,6 +79,12 @@ def install_shims(b):
             return orig(self, command, irc, msg, *args, **kwargs)
     cbs.Commands.callCommand = callCommand
     cbs.Commands._vt_shimmed = True
+    orig_gate = cbs.Commands.__dict__['_callCommand']
+    def _callCommand(self, command, irc, msg, *args, **kwargs):
+        # which message does the gate see?  (prefix and msg.channel of the IrcMsg handed to Proxy)
+        Obs.entered.append((type(self).__name__, tuple(command), msg.prefix, getattr(msg, 'channel', None)))
+        return orig_gate(self, command, irc, msg, *args, **kwargs)
+    cbs.Commands._callCommand = _callCommand
     done = set()
     for cb in b.irc.callbacks:
         for klass in type(cb).__mro__:
@@ -376,7 +384,7 @@ def wait_threads():
             t.join(5)
 
 def deliver(b, prefix, target, text):
-    Obs.gate = []; Obs.bodies = []
+    Obs.gate = []; Obs.bodies = []; Obs.entered = []
     out = bot.feed(b, prefix, target, text)
     wait_threads()
     out += bot.drain(b)
@@ -386,9 +394,11 @@ def deliver(b, prefix, target, text):
 # invocation texts
 # ------------------------------------------------------------------------------------------
 FORMS = ['char', 'nick', 'private', 'atend']
-WRAPPERS = ['direct', 'qualified', 'nested', 'outer', 'piped', 'aka', 'alias', 'apply', 'let', 'cif']
+WRAPPERS = ['direct', 'qualified', 'nested', 'outer', 'piped', 'aka', 'akanest', 'alias', 'apply', 'let', 'cif']
+SITE_OF = {'direct': 'owner', 'qualified': 'owner', 'nested': 'nested', 'outer': 'nested', 'piped': 'nested', 'aka': 'aka',
+           'akanest': 'aka', 'alias': 'alias', 'apply': 'apply', 'let': 'let', 'cif': 'cif', 'scheduled': 'scheduled'}
 WRAPPER_CMDS = {('Utilities', ('echo',)), ('Utilities', ('apply',)), ('Utilities', ('let',)),
-                ('Conditional', ('cif',)), ('Conditional', ('ceq',)), ('Aka', ('vtrun',)), ('Alias', ('vtrun2',)),
+                ('Conditional', ('cif',)), ('Conditional', ('ceq',)), ('Aka', ('vtrun',)), ('Aka', ('vtn',)), ('Alias', ('vtrun2',)),
                 ('Scheduler', ('add',)), ('Scheduler', ('scheduler', 'add'))}
 
 def quote(a):
@@ -417,6 +427,8 @@ def command_text(plugin, path, args, wrapper, qualified):
         a = a + ['zz']
     elif wrapper == 'aka':
         text = 'vtrun %s' % core
+    elif wrapper == 'akanest':
+        text = 'vtn %s' % core                  # Aka body "echo [$1 $*]": the arguments land inside a nested command
     elif wrapper == 'alias':
         text = 'vtrun2 %s' % core
     elif wrapper == 'apply':
@@ -580,7 +592,7 @@ def explore(ctx, b, w, table, required, n_extra):
     combos = [(f, wr) for f in FORMS for wr in WRAPPERS]
     have = set(cb.name() for cb in irc.callbacks)
     def wrapper_ok(wr):
-        return not ((wr in ('nested', 'outer', 'piped', 'apply', 'let') and 'Utilities' not in have) or (wr == 'aka' and 'Aka' not in have)
+        return not ((wr in ('nested', 'outer', 'piped', 'apply', 'let') and 'Utilities' not in have) or (wr in ('aka', 'akanest') and 'Aka' not in have)
                     or (wr == 'alias' and 'Alias' not in have) or (wr == 'cif' and 'Conditional' not in have))
     combos = [c for c in combos if wrapper_ok(c[1])]
     k = 0
@@ -716,6 +728,12 @@ def explore(ctx, b, w, table, required, n_extra):
             lines.append('ignored\t' + wire.enc(prefix)); pend.append(None)
             q = 'invoke\t%s\t%s\t%s\t%s\t%s\t%d\t%s' % (wire.enc(prefix), wire.enc_opt(mchan), wire.enc(plugin), wire.enc_list(cmd),
                                                         enc_spec(sc.spec), 1 if sc.allow_extra else 0, wire.enc_list(args))
+            # the message the gate will be given at this wrapper's re-dispatch site, according to the model
+            # (for a scheduled replay nobody is talking when the event fires: the current message is empty)
+            if sc.wrapper == 'scheduled':
+                site_q = 'site\tscheduled\t%s\t%s\t%s\t%s\t%s\t0' % (wire.enc(''), wire.enc(''), wire.enc(prefix), wire.enc(target), wire.enc(''))
+            else:
+                site_q = 'site\t%s\t%s\t%s\t%s\t%s\t%s\t0' % (SITE_OF[sc.wrapper], wire.enc(prefix), wire.enc(target), wire.enc(''), wire.enc(''), wire.enc(''))
             target_key = (plugin, tuple(cmd))
             Obs.execute = (lambda p, c, real=real, tk=target_key: True if (p, c) in WRAPPER_CMDS else (real if (p, c) == tk else False))
             before = base_snap[0] if sc.setup is None else snapshot(b)
@@ -736,7 +754,7 @@ def explore(ctx, b, w, table, required, n_extra):
                         lines.append('ignored\t' + wire.enc(prefix)); pend.append(None)
                         before = snapshot(b)
                     Clock.offset += 60
-                    Obs.gate = []; Obs.bodies = []
+                    Obs.gate = []; Obs.bodies = []; Obs.entered = []
                     b.schedule.run()
                     wait_threads()
                     out = bot.drain(b)
@@ -745,6 +763,7 @@ def explore(ctx, b, w, table, required, n_extra):
                     sc.kind = 'sched-refused'
             after = snapshot(b)
             gate_hit = [g for g in Obs.gate if g == target_key]
+            seen_by_gate = [(e[2], e[3]) for e in Obs.entered if (e[0], e[1]) == target_key]
             other_targets = [g for g in Obs.gate if g != target_key and g not in WRAPPER_CMDS]
             body_ran = (plugin, path) in Obs.bodies or (len(path) == 2 and path[0] == path[1] and (plugin, path[:1]) in Obs.bodies) \
                        or (len(path) == 1 and (plugin, path + path) in Obs.bodies)
@@ -801,13 +820,16 @@ def explore(ctx, b, w, table, required, n_extra):
         c = Case({'op': 'call', 'plugin': plugin, 'path': list(path), 'role': sc.role, 'prefix': prefix, 'target': target, 'text': full,
                   'setup': list(sc.setup) if sc.setup else None, 'real': real, 'why': sc.why},
                  impl=impl, oracle_ok=ok, oracle_msg=msg, tags=tags, kind=sc.kind)
+        if seen_by_gate:
+            c.impl = impl + ' @%s %s' % seen_by_gate[0]
         cases.append(c)
         DEBUG[id(c)] = [str(m).strip() for m in out]
         if sc.kind == 'sched-refused':
             c.impl = None       # the inner command was never stored: nothing to compare with the model
             continue
+        lines.append(site_q); pend.append(None)
         lines.append(q)
-        def fill(o, ign, c=c, real=real, spec=sc.spec):
+        def fill0(o, ign, c=c, real=real, spec=sc.spec):
             if ign.startswith('1'):
                 return 'silent'
             if ign.startswith('crash'):
@@ -828,6 +850,13 @@ def explore(ctx, b, w, table, required, n_extra):
             if oc[0] == 'noCapability':
                 return 'gate:allow|nocap:' + wire.dec(oc[1])
             return 'gate:allow|stopped'
+        def fill(o, ign, c=c, real=real, spec=sc.spec, seen=bool(seen_by_gate), fill0=None):
+            r0 = fill0(o, ign)
+            if seen and SITE_OUT[0] not in (None, 'none', 'bad-op'):
+                f = SITE_OUT[0].split('\t')
+                r0 += ' @%s %s' % (wire.dec(f[0]), wire.dec_opt(f[1]))
+            return r0
+        fill.__defaults__ = fill.__defaults__[:-1] + (fill0,)
         pend.append((c, fill))
     # ================= configuration writes =================
     registry = b.registry
@@ -1223,8 +1252,10 @@ def reconcile(c):
     if c.impl is None or c.model is None:
         return
     loose = ('gate:allow|body', 'gate:allow|stopped')
-    if c.impl in loose and c.model in loose:
-        c.impl = c.model = 'gate:allow|body-or-stopped-by-unmodelled-converter'
+    bi, _, si = c.impl.partition(' @'); bm, _, sm = c.model.partition(' @')
+    if bi in loose and bm in loose:
+        c.impl = 'gate:allow|body-or-stopped-by-unmodelled-converter' + (' @' + si if si else '')
+        c.model = 'gate:allow|body-or-stopped-by-unmodelled-converter' + (' @' + sm if sm else '')
 
 def fill_model(clp):
     cases, lines, pend = clp
@@ -1233,6 +1264,8 @@ def fill_model(clp):
     for p, o, l in zip(pend, outs, lines):
         if l.startswith('ignored\t'):
             last_ign = o
+        if l.startswith('site\t'):
+            SITE_OUT[0] = o
         if p is None:
             continue
         c, f = p
@@ -1254,6 +1287,7 @@ def boot(ctx):
     # aliases used as wrappers, created by the owner through the real commands
     Obs.execute = None
     bot.feed(b, ROLES['owner'], NICK, 'aka add vtrun "$1 $*"')
+    bot.feed(b, ROLES['owner'], NICK, 'aka add vtn "echo [$1 $*]"')
     bot.feed(b, ROLES['owner'], NICK, 'alias add vtrun2 "$1 $*"')
     return b, w
 
